@@ -1168,3 +1168,18 @@ V('c11-flush-bit-on-unicast-responses', 'C11', 'C11.FORMAT', '_protocol/outgoing
 V('c09-qu-probe-unanswered-when-recently-multicast', 'C09', 'C09.SHAPE', '_handlers/query_handler.py',
   "            if self._is_probe:\n                self._ucast.add(record)\n            if not self._has_mcast_within_one_quarter_ttl(record):\n                self._mcast_now.add(record)\n            elif not self._is_probe:\n                self._ucast.add(record)",
   "            if not self._has_mcast_within_one_quarter_ttl(record):\n                self._mcast_now.add(record)\n                if self._is_probe:\n                    self._ucast.add(record)\n            elif not self._is_probe:\n                self._ucast.add(record)", names=['probe=True'])
+
+# ---------------------------------------------------------------- F25 / F26 undone
+NAMEF = '_utils/name.py'
+V('c19-surrogate-label-escapes-the-validator', 'C19', 'C19.TOTAL', NAMEF,
+  "        try:\n            length = len(remaining[0].encode('utf-8'))\n        except UnicodeEncodeError:\n            # a lone surrogate: the label has no UTF-8 form at all\n            raise BadTypeInNameException(\"Not encodable as UTF-8: %r\" % remaining[0]) from None\n",
+  "        length = len(remaining[0].encode('utf-8'))\n", names=['UnicodeEncodeError'])
+V('c19-twin-surrogate-label-length-by-surrogatepass', 'C19', 'C19.TOTAL', NAMEF,
+  "        try:\n            length = len(remaining[0].encode('utf-8'))\n        except UnicodeEncodeError:\n            # a lone surrogate: the label has no UTF-8 form at all\n            raise BadTypeInNameException(\"Not encodable as UTF-8: %r\" % remaining[0]) from None\n",
+  "        length = len(remaining[0].encode('utf-8', 'surrogatepass'))\n        if any(0xD800 <= ord(ch) <= 0xDFFF for ch in remaining[0]):\n            raise BadTypeInNameException(\"Not encodable as UTF-8: %r\" % remaining[0])\n", expect='silent')
+MQF = '_handlers/multicast_outgoing_queue.py'
+V('c12-sent-answers-stay-in-the-other-queue', 'C12', 'C12.WIRING', MQF,
+  "            for queue in (zc.out_queue, zc.out_delay_queue):\n                if queue is not self:\n                    queue._remove_answers_from_queue(answers)\n", "", names=['other queues'])
+V('c12-twin-both-queues-purged-by-name', 'C12', 'C12.WIRING', MQF,
+  "            self._remove_answers_from_queue(answers)\n            for queue in (zc.out_queue, zc.out_delay_queue):\n                if queue is not self:\n                    queue._remove_answers_from_queue(answers)\n",
+  "            zc.out_queue._remove_answers_from_queue(answers)\n            zc.out_delay_queue._remove_answers_from_queue(answers)\n", expect='silent')
